@@ -61,6 +61,7 @@ K_LIMIT_FEE_CACHED = 'C20/error-limit/estimatefee-network-default-served-from-ca
 K_EMPTY_NOLIMIT = 'C20/error-limit/not-evaluated-after-empty-response'
 K_CONF_NEG = 'C20/cache/confirmations-computed-from-expired-blockcount'
 K_PAGE_ORDER = 'C20/cache/block-page-served-in-insertion-order'
+K_CACHED_SUBSET = 'C20/cache/address-history-starts-at-whatever-is-cached'
 K_INDEX_ORDER = 'C20/cache/same-block-order-from-answer-position'
 K_PARTIAL_HISTORY = 'C20/cache/address-balance-summed-over-partial-history'
 
@@ -251,6 +252,7 @@ class World:
         self.last_bc_failed = False
         self.epoch = 0
         self.spent_info = bool(case.get('spent_info'))
+        self.partial_balances = {}
         self.reg_whole = {}      # address -> [(sum, count)] of provider utxo answers that covered the whole address
         self.salt = 0
 
@@ -908,6 +910,10 @@ def check_address_records(callrec, col, case):
         if bal is not None and not (bal == 0 or any(_same(bal, v) for v in _stored_balance_candidates(addr, name))):
             ch = _cached_history_sum(name)
             key = K_PARTIAL_HISTORY if (ch is not None and not ch[1] and _same(bal, ch[0])) else None
+            if key:
+                W.partial_balances.setdefault(addr, set()).add(bal)
+            elif bal in W.partial_balances.get(addr, ()):
+                key = K_PARTIAL_HISTORY      # the record written earlier is still there, the cached set has grown since
             col.violation(key, 'stored balance %s of address %s after %s: no provider reported it for the address and it is not '
                           'derivable from the history providers gave' % (_short(bal), name, callrec['m']),
                           dict(case, failing_call=callrec['index']), info, sorted(_stored_balance_candidates(addr, name))[:12])
@@ -1004,6 +1010,8 @@ def _judge_list(callrec, ret, fresh, execs, what, any_malformed):
                 out.append(('cache', 'cached utxo %s:%s carries height/date no provider gave' % (tn, n)))
     if out and what == 'tx' and name is not None and _cached_order_explains(callrec, name, prefix):
         out = [(code, why if why.startswith('C20/') else K_INDEX_ORDER + '|' + why) for code, why in out]
+    elif out and what == 'tx' and name is not None and _cached_subset_explains(callrec, name, prefix, execs):
+        out = [(code, why if why.startswith('C20/') else K_CACHED_SUBSET + '|' + why) for code, why in out]
     return out
 
 
@@ -1063,6 +1071,32 @@ def _cached_order_explains(callrec, name, prefix):
     model = model[:limit]
     got = [c.by_txid.get(el.txid) for el in prefix if isinstance(el, S.Transaction)]
     return got == model
+
+
+def _cached_subset_explains(callrec, name, prefix, execs):
+    """Narrow shape of one known deviation: without after_txid the cache hands out whatever transactions of the
+    address it happens to hold (e.g. from getblock / gettransaction) as the head of the history and the provider is
+    only asked for what follows the last of them. True when the call had no after_txid, the cache-served part is in
+    chain order, the provider was asked exactly after its last element, and every history transaction missing in front
+    of / inside that part is indeed absent from the cache (independent sqlite read)."""
+    c = _state['W'].c
+    S = _state['S']
+    if callrec['args'][1] or not prefix or not all(isinstance(el, S.Transaction) for el in prefix):
+        return False
+    hist = c.txs_of(name, True)
+    names = [c.by_txid.get(el.txid) for el in prefix]
+    if any(n not in hist for n in names):
+        return False
+    idx = [hist.index(n) for n in names]
+    if idx != sorted(set(idx)):
+        return False
+    if execs and execs[-1]['args'][1] != c.txs[names[-1]]['txid']:
+        return False
+    cached, _ = _cache_view(name)
+    if cached is None:
+        return False
+    missing = [n for n in hist[:idx[-1]] if n not in names]
+    return bool(missing) and not any(n in cached for n in missing)
 
 
 def _run_problems(callrec, ret, name, asked_provider):
